@@ -427,6 +427,24 @@ pub fn bomb_bytes(family: &str, n: usize) -> Vec<u8> {
                 val(&mut b, 0x37, b"", b"");
             }
         }
+        "nest-named-mem" | "nest-named-val" | "nest-named-beg" => {
+            // deep nesting with *named* tokens inside the open collections (every 30 levels, or every level)
+            val(&mut b, 0x34, b"c", b"");
+            for i in 1..n {
+                val(&mut b, 0x4a, b"", b"m");
+                match family {
+                    "nest-named-mem" if i % 30 == 0 => val(&mut b, 0x4a, b"x", b"m"),
+                    "nest-named-val" if i % 31 == 0 => val(&mut b, 0x44, b"y", b"v"),
+                    _ => {}
+                }
+                val(&mut b, 0x34, if family == "nest-named-beg" { b"n" } else { b"" }, b"");
+            }
+            val(&mut b, 0x4a, b"", b"m");
+            val(&mut b, 0x21, b"", &[0, 0, 0, 1]);
+            for _ in 0..n {
+                val(&mut b, 0x37, b"", b"");
+            }
+        }
         "nest32-repeat" => {
             // many attributes, each a 30-deep well-formed collection chain
             for i in 0..n {
@@ -504,7 +522,10 @@ pub fn bomb_bytes(family: &str, n: usize) -> Vec<u8> {
     b
 }
 
-pub const BOMB_FAMILIES: [(&str, usize); 13] = [
+pub const BOMB_FAMILIES: [(&str, usize); 16] = [
+    ("nest-named-mem", 17),
+    ("nest-named-val", 17),
+    ("nest-named-beg", 18),
     ("nest-open", 6),
     ("nest-closed", 11),
     ("nest-members", 17),
